@@ -340,6 +340,9 @@ func (c *c12) sth() {
 		case 1:
 			if len(body) > 1 {
 				rsp.cutAt, class = 1+r.Intn(len(body)-1), class+"+body-read-error"
+				if r.Bool() { // cut short in transit after a COMPLETE JSON value (Content-Length promised more)
+					rsp.cutAt, class = len(body), class+"+read-error-after-complete-body"
+				}
 			}
 		case 2:
 			rsp.viaRedirect, class = true, class+"+via-redirect"
@@ -469,6 +472,10 @@ func (c *c12) chains() []c12Chain {
 	}
 	cert := der(testdata.TestCertPEM + testdata.CACertPEM)
 	pre := der(testdata.TestPreCertPEM + testdata.CACertPEM)
+	lax, err := verifkit.NonMinimalSerial(cert[0].Data) // read only by the lenient fallback of the repository's parser
+	if err != nil {
+		panic(err)
+	}
 	return []c12Chain{
 		{"cert", false, cert}, {"cert", false, cert}, {"cert", false, cert}, {"cert", false, cert}, {"cert", false, cert}, {"cert", false, cert},
 		{"precert", true, pre}, {"precert", true, pre}, {"precert", true, pre},
@@ -478,6 +485,10 @@ func (c *c12) chains() []c12Chain {
 		{"cert-as-precert", true, cert},
 		{"precert-without-issuer", true, pre[:1]},
 		{"garbage-cert", false, []ct.ASN1Cert{{Data: []byte{0x30, 0x03, 1, 2, 3}}}},
+		{"lax-only-cert", false, []ct.ASN1Cert{{Data: lax}, cert[1]}},
+		{"lax-only-cert", false, []ct.ASN1Cert{{Data: lax}, cert[1]}},
+		{"lax-only-cert+trailing-bytes", false, []ct.ASN1Cert{{Data: append(append([]byte(nil), lax...), 0xde, 0xad, 0xbe, 0xef)}, cert[1]}},
+		{"cert+trailing-bytes", false, []ct.ASN1Cert{{Data: append(append([]byte(nil), cert[0].Data...), 0xde, 0xad, 0xbe, 0xef)}, cert[1]}},
 		{"empty-chain", false, nil},
 		{"empty-prechain", true, nil},
 	}
@@ -564,7 +575,11 @@ func (c *c12) add() {
 		f.sig = sign(signer, ch, f.ts, ext)
 		class := "valid"
 		body := []byte(nil)
-		switch r.Intn(52) {
+		sel := r.Intn(52)
+		if strings.HasSuffix(ch.name, "+trailing-bytes") && r.Bool() {
+			sel = 13
+		}
+		switch sel {
 		case 0, 1, 2, 3, 4, 5, 6, 7, 30, 31, 32, 33, 34, 35, 36, 37, 38, 39, 40, 41, 42, 43, 44, 45, 46, 47, 48, 49, 50, 51:
 		case 8:
 			class = "foreign-key-signature"
@@ -586,6 +601,12 @@ func (c *c12) add() {
 				f.sig = sign(signer, ch, f.ts, append([]byte{7}, ext...))
 			}
 		case 13:
+			if strings.HasSuffix(ch.name, "+trailing-bytes") {
+				class = "signature-over-prefix-of-submitted-certificate"
+				d := ch.chain[0].Data
+				f.sig = sign(signer, c12Chain{"prefix", false, []ct.ASN1Cert{{Data: d[:len(d)-4]}, ch.chain[1]}}, f.ts, ext)
+				break
+			}
 			class = "id-zero"
 			f.id = make([]byte, 32)
 		case 14:
@@ -709,7 +730,10 @@ func (c *c12) oneAddOn(sess *c12Sess, class string, k *verifkit.SKey, ch c12Chai
 	for _, rp := range rsps {
 		var dec ct.AddChainResponse
 		var target interface{} = &dec
-		jsonOK := json.Unmarshal(rp.body, &target) == nil
+		jsonOK := json.Unmarshal(rp.body, &target) == nil && rp.cutAt == 0
+		if rp.cutAt > 0 {
+			dec = ct.AddChainResponse{}
+		}
 		exts, xerr := base64.StdEncoding.DecodeString(dec.Extensions)
 		toks = append(toks, fmt.Sprintf("%d %s %d %s %d %s %s %s", rp.status, verifkit.B(jsonOK), uint64(dec.SCTVersion), verifkit.Hex(dec.ID), dec.Timestamp,
 			verifkit.B(xerr == nil), verifkit.Hex(exts), verifkit.Hex(dec.Signature)))
@@ -862,16 +886,20 @@ func (c *c12) plain() {
 		return [][2]string{{"valid", string(valid)}, {"valid", string(valid)}, {"valid", string(valid)}, {"truncated-json", string(valid[:len(valid)/2])}, {"truncated-json", string(valid[:len(valid)-1])},
 			{"wrong-types", `{"consistency":"x","leaf_index":"1","audit_path":5,"leaf_input":7,"entries":{}}`}, {"wrong-types", `[]`}, {"wrong-types", `7`},
 			{"bad-base64", `{"consistency":["%%"],"audit_path":["%%"],"leaf_input":"%%","entries":[{"leaf_input":"%%"}]}`},
-			{"json-then-garbage", string(valid) + `xyz`}, {"empty", ``}, {"null", `null`}, {"empty-object", `{}`}, {"html", `<html>502</html>`}}
+			{"json-then-garbage", string(valid) + `xyz`}, {"valid+read-error-after-complete-body", string(valid)}, {"empty", ``}, {"null", `null`}, {"empty-object", `{}`}, {"html", `<html>502</html>`}}
 	}
 	for _, e := range eps {
-		for _, st := range []int{200, 301, 302, 307, 400, 404, 408, 429, 500, 503} {
+		for _, st := range []int{200, 201, 203, 206, 301, 302, 307, 400, 404, 408, 429, 500, 503} {
 			for _, bd := range bodies(e.valid) {
 				body := []byte(bd[1])
 				jsonOK := e.dec(body)
+				rsp := c12Rsp{status: st, body: body, hdr: c12HeaderPool[r.Intn(len(c12HeaderPool))]}
+				if bd[0] == "valid+read-error-after-complete-body" {
+					rsp.cutAt, jsonOK = len(body), false // the body could not be read to its end: nothing is decoded
+				}
 				var res interface{}
 				var err error
-				sc, p := c12Call(c.keys[0], []c12Rsp{{status: st, body: body, hdr: c12HeaderPool[r.Intn(len(c12HeaderPool))]}}, func(ctx context.Context, cl *LogClient) { res, err = e.call(ctx, cl) })
+				sc, p := c12Call(c.keys[0], []c12Rsp{rsp}, func(ctx context.Context, cl *LogClient) { res, err = e.call(ctx, cl) })
 				key := fmt.Sprintf("get %s %s status=%d", e.name, bd[0], st)
 				ans := "ok"
 				switch {
@@ -1000,6 +1028,10 @@ func (c *c12) entryPool() []c12Entry {
 		return b
 	}
 	junk := []byte{0x30, 0x03, 0x02, 0x01, 0x01}
+	lax, lerr := verifkit.NonMinimalSerial(certs[0].Raw)
+	if lerr != nil {
+		panic(lerr)
+	}
 	g := good[0]
 	p := good[3]
 	pool = append(pool,
@@ -1013,6 +1045,9 @@ func (c *c12) entryPool() []c12Entry {
 		c12Entry{"entry-type-swapped", cat(g.leaf[:10], []byte{0, 1}, g.leaf[12:]), g.extra},
 		c12Entry{"cert-length-zero", cat(hdr(0, 0, 5, 0), u24(0), []byte{0, 0}), cat(u24(0))},
 		c12Entry{"cert-not-x509", cat(hdr(0, 0, 5, 0), u24(len(junk)), junk, []byte{0, 0}), cat(u24(0))},
+		c12Entry{"cert-lax-only", cat(hdr(0, 0, 5, 0), u24(len(lax)), lax, []byte{0, 0}), cat(u24(0))},
+		c12Entry{"cert-lax-only+trailing-bytes", cat(hdr(0, 0, 5, 0), u24(len(lax)+4), lax, []byte{0xde, 0xad, 0xbe, 0xef}, []byte{0, 0}), cat(u24(0))},
+		c12Entry{"cert+trailing-bytes", cat(hdr(0, 0, 5, 0), u24(len(certs[0].Raw)+4), certs[0].Raw, []byte{0xde, 0xad, 0xbe, 0xef}, []byte{0, 0}), cat(u24(0))},
 		c12Entry{"tbs-not-x509", cat(hdr(0, 0, 5, 1), r.Bytes(32), u24(len(junk)), junk, []byte{0, 0}), cat(u24(len(junk)), junk, u24(0))},
 		c12Entry{"extensions-length-overruns", cat(g.leaf[:len(g.leaf)-2], []byte{0, 9}), g.extra},
 		c12Entry{"extra-trailing-byte", g.leaf, cat(g.extra, []byte{9})},
@@ -1089,9 +1124,13 @@ func (c *c12) entries() {
 		c.out.Count("outcome:" + strings.Fields(ans)[0])
 		if rle != nil && err == nil {
 			var e3 error
-			if p := verifkit.Guard(func() { _, e3 = rle.ToLogEntry() }); p != "" {
+			var le *ct.LogEntry
+			if p := verifkit.Guard(func() { le, e3 = rle.ToLogEntry() }); p != "" {
 				c.out.Fail(key+" ToLogEntry panic", p)
 				return rle, true
+			}
+			if le != nil {
+				c12CertCoversField(c.out, key, le)
 			}
 			return rle, x509.IsFatal(e3)
 		}
@@ -1208,6 +1247,7 @@ func (c *c12) entriesCall(class string, status int, body []byte, start, end int6
 				c.out.Fail(key+" index", fmt.Sprint(e.Index))
 			}
 			ans += " " + c12Show(&ct.RawLogEntry{Index: e.Index, Leaf: e.Leaf, Cert: c12Submitted(&e), Chain: e.Chain})
+			c12CertCoversField(c.out, key, &e)
 		}
 		if status != 200 || !jsonOK || !allOK {
 			c.out.Fail(key+" bad-response-accepted", ans)
@@ -1343,6 +1383,9 @@ func (c *c12) statusMatrix() {
 			f := sthFields{size: r.U64() >> 30, ts: r.U64() >> 20, root: r.Bytes(32)}
 			f.sig = c12DS(4, c12SigAlg(k), k.Sign(4, verifkit.STHSigInput(0, f.ts, f.size, f.root)))
 			c.oneSTHOn(nil, "status-matrix:valid", k, c12Rsp{status: st, body: f.json()})
+			if st == 200 {
+				c.oneSTHOn(nil, "valid+read-error-after-complete-body", k, c12Rsp{status: st, body: f.json(), cutAt: len(f.json())})
+			}
 			// add-chain, add-pre-chain
 			for _, ci := range []int{0, 6} {
 				ch := chains[ci]
@@ -1351,6 +1394,9 @@ func (c *c12) statusMatrix() {
 				_, et, cert, ikh, tbs := c12Leaf(ch, ts)
 				sf := sctFields{id: keyID[:], ts: ts, sig: c12DS(4, c12SigAlg(k), k.Sign(4, verifkit.SCTSigInput(0, ts, et, cert, ikh, tbs, nil)))}
 				c.oneAddOn(nil, "status-matrix:valid", k, ch, []c12Rsp{{status: st, body: sf.json()}})
+				if st == 200 {
+					c.oneAddOn(nil, "valid+read-error-after-complete-body", k, ch, []c12Rsp{{status: st, body: sf.json(), cutAt: len(sf.json())}})
+				}
 			}
 		}
 		// get-entries with genuine entries
@@ -1360,6 +1406,21 @@ func (c *c12) statusMatrix() {
 		}
 		body, _ := json.Marshal(map[string]interface{}{"entries": []je{{pool[0].leaf, pool[0].extra}, {pool[3].leaf, pool[3].extra}}})
 		c.oneEntries("status-matrix:valid", st, body, 0, 1, []int{0, 3}, pool)
+	}
+}
+
+// c12CertCoversField: the parsed (pre-)certificate of a returned entry must be the parse of the WHOLE certificate / TBS field of
+// the leaf — an entry whose parsed certificate covers only a prefix of the field is inconsistent with leaf_input.
+func c12CertCoversField(out *verifkit.Out, key string, e *ct.LogEntry) {
+	te := e.Leaf.TimestampedEntry
+	if te == nil {
+		return
+	}
+	if e.X509Cert != nil && te.X509Entry != nil && !bytes.Equal(e.X509Cert.Raw, te.X509Entry.Data) {
+		out.Fail(key+" entry-certificate-covers-part-of-field", fmt.Sprintf("parsed certificate has %d octets, the leaf's certificate field %d", len(e.X509Cert.Raw), len(te.X509Entry.Data)))
+	}
+	if e.Precert != nil && e.Precert.TBSCertificate != nil && te.PrecertEntry != nil && !bytes.Equal(e.Precert.TBSCertificate.RawTBSCertificate, te.PrecertEntry.TBSCertificate) {
+		out.Fail(key+" entry-tbs-covers-part-of-field", fmt.Sprintf("parsed TBS has %d octets, the leaf's TBS field %d", len(e.Precert.TBSCertificate.RawTBSCertificate), len(te.PrecertEntry.TBSCertificate)))
 	}
 }
 
